@@ -15,6 +15,9 @@ Further schema shapes (added after seeded changes were missed): two local elemen
 parents (every ordered pair of 6 types, both document orders, also at different depths); simple-content extensions of list types; list-typed
 attributes; restrictions of lists, lists of restricted items, unions with restricted members, lists of unions, restrictions of unions,
 restriction chains with user-defined type names used in element(*, T) / attribute(*, T).
+Also: substitution groups (head / member of four type pairs), xs:any / xs:anyAttribute wildcards (lax and strict) resolved to global
+declarations, a three-level nesting with repeated complex children.  Thorough tier: 2-6 further literals per atomic type (bounds, signs,
+whitespace, time zones), 12 types in the same-name pairs, reuse histories up to depth 6.
 Unit `reuse` (shape S): one prebuilt node tree used by a history of up to 3 contexts, each bound to schema A, schema B (same structure,
 other types) or no schema; after every step with a schema the typed values are the ones of that schema.
 Oracle: mc.models.atomic (lexical -> value -> canonical string), mc.models.seqtypes (type hierarchy), xmlschema's own decoder.
@@ -54,11 +57,40 @@ def ancestors(T):
     return out
 
 
-def schema_cases():
+LEX_MORE = {      # further literals of the thorough tier (bounds, signs, whitespace, time zones)
+    'string': ['', '\u00e9\U0001d11e'], 'normalizedString': ['  a  b  '], 'token': ['a b c'], 'language': ['x-klingon'], 'NMTOKEN': ['-a.b', ' a '], 'Name': ['_a', ':a'], 'NCName': ['_a-b.c'],
+    'ID': ['_x'], 'decimal': ['+1.', '.5', '-0', '123456789012345678.123'], 'integer': ['+7', '-0', '00012'], 'nonPositiveInteger': ['-0', '-99999999999999999999'],
+    'negativeInteger': ['-99999999999999999999'], 'long': ['9223372036854775807', '+5'], 'int': ['-2147483648', '007'], 'short': ['32767', '-0'], 'byte': ['127', '+1'],
+    'nonNegativeInteger': ['+0', '99999999999999999999'], 'unsignedLong': ['0', '+1'], 'unsignedInt': ['0'], 'unsignedShort': ['0'], 'unsignedByte': ['0', '+255'], 'positiveInteger': ['99999999999999999999'],
+    'double': ['-INF', 'NaN', '1e0', '-0', '.5E-3', '12345678.9'], 'float': ['-INF', 'NaN', '1e0', '-0.0'], 'boolean': ['false', '1', ' true '],
+    'duration': ['-P1Y', 'P1M', 'PT1.5S', 'P0Y'], 'yearMonthDuration': ['P0M', 'P1Y1M'], 'dayTimeDuration': ['-PT1S', 'PT0.001S', 'P1DT1H1M1S'],
+    'dateTime': ['2000-01-01T24:00:00', '0001-01-01T00:00:00-14:00', '2000-12-31T23:59:59.999+14:00'], 'date': ['0001-01-01', '2004-02-29Z', '9999-12-31-05:00'],
+    'time': ['00:00:00', '24:00:00', '12:00:00.123+01:00'], 'gYear': ['0001', '9999+14:00'], 'gYearMonth': ['2000-02Z', '0001-01'], 'gMonth': ['--01Z', '--06+02:00'],
+    'gMonthDay': ['--01-01Z', '--12-31-14:00'], 'gDay': ['---31Z', '---15'], 'hexBinary': ['00', 'ABCDEF'], 'base64Binary': ['', 'QQ==', 'QUI='], 'anyURI': ['', 'urn:x:y', '#f'],
+}
+SAME_NAME_MORE = ['double', 'dateTime', 'duration', 'string', 'hexBinary', 'unsignedByte']
+SAME_NAME_LIT_MORE = {'double': '1.5', 'dateTime': '2000-01-01T00:00:00Z', 'duration': 'P1Y', 'string': 'x y', 'hexBinary': '0A', 'unsignedByte': '200'}
+_CASES = {}
+
+
+def schema_cases(tier='quick'):
+    if tier not in _CASES:
+        _CASES[tier] = _schema_cases(tier)
+    return _CASES[tier]
+
+
+def _schema_cases(tier):
     """[(case id, kind, declared type T for the element value | None, xsd body for the children of r, attribute decls, instances)]
     an instance is (children xml, attributes xml, {'c': [literals], 'attrs': {name: literal}})"""
     out = []
+    same_types = SAME_NAME_TYPES + (SAME_NAME_MORE if tier == 'thorough' else [])
+    same_lit = dict(SAME_NAME_LIT, **SAME_NAME_LIT_MORE)
     for T, lits in LEX.items():
+        if tier == 'thorough':
+            lits = lits + LEX_MORE.get(T, [])
+            for k, x in enumerate(lits[2:]):
+                out.append(('attribute:%s:%d' % (T, k + 2), 'attribute', T, '<xs:element name="c" type="xs:string" minOccurs="0"/>', '<xs:attribute name="a" type="xs:%s"/>' % T,
+                            [('<c>x</c>', ' a="%s"' % x, {'attrs': {'a': (T, x)}, 'c': [('string', 'x')]})]))
         out.append(('atomic:' + T, 'atomic', T, '<xs:element name="c" type="xs:%s" maxOccurs="unbounded"/>' % T, '',
                     [(''.join('<c>%s</c>' % x for x in lits), '', {'c': [(T, x) for x in lits]}), ('<c>%s</c>' % lits[0], '', {'c': [(T, lits[0])]})]))
         out.append(('attribute:' + T, 'attribute', T, '<xs:element name="c" type="xs:string" minOccurs="0"/>', '<xs:attribute name="a" type="xs:%s"/>' % T,
@@ -85,14 +117,14 @@ def schema_cases():
     out.append(('attribute-default', 'attribute-default', 'decimal', '<xs:element name="c" type="xs:string" minOccurs="0"/>', '<xs:attribute name="a" type="xs:decimal" default="1.5"/>',
                 [('<c>x</c>', '', {'attrs': {'a': ('decimal', '1.5')}, 'c': [('string', 'x')], 'defaulted': ['a']}), ('<c>x</c>', ' a="2.5"', {'attrs': {'a': ('decimal', '2.5')}, 'c': [('string', 'x')]})]))
     # --- same local name, different types under different parents (the element match cache is keyed by content model) ---
-    for T1, T2 in itertools.permutations(SAME_NAME_TYPES, 2):
+    for T1, T2 in itertools.permutations(same_types, 2):
         body = ('<xs:choice maxOccurs="unbounded"><xs:element name="g"><xs:complexType><xs:sequence><xs:element name="c" type="xs:%s"/></xs:sequence></xs:complexType></xs:element>'
                 '<xs:element name="h"><xs:complexType><xs:sequence><xs:element name="c" type="xs:%s"/></xs:sequence></xs:complexType></xs:element></xs:choice>' % (T1, T2))
         insts = []
         for order in ('gh', 'hg', 'ghg'):
-            xml = ''.join('<%s><c>%s</c></%s>' % (e, SAME_NAME_LIT[T1 if e == 'g' else T2], e) for e in order)
-            insts.append((xml, '', {'paths': [('/r/%s[%d]/c' % (e, order[:k + 1].count(e)), 'element', (T1 if e == 'g' else T2, SAME_NAME_LIT[T1 if e == 'g' else T2])) for k, e in enumerate(order)],
-                                    'wildcard': [('/r/*[%d]/c' % (k + 1), (T1 if e == 'g' else T2, SAME_NAME_LIT[T1 if e == 'g' else T2])) for k, e in enumerate(order)]}))
+            xml = ''.join('<%s><c>%s</c></%s>' % (e, same_lit[T1 if e == 'g' else T2], e) for e in order)
+            insts.append((xml, '', {'paths': [('/r/%s[%d]/c' % (e, order[:k + 1].count(e)), 'element', (T1 if e == 'g' else T2, same_lit[T1 if e == 'g' else T2])) for k, e in enumerate(order)],
+                                    'wildcard': [('/r/*[%d]/c' % (k + 1), (T1 if e == 'g' else T2, same_lit[T1 if e == 'g' else T2])) for k, e in enumerate(order)]}))
         out.append(('same-name:%s:%s' % (T1, T2), 'same-name', None, body, '', insts))
     for T1, T2 in (('int', 'NCName'), ('date', 'gYear'), ('NCName', 'int')):
         body = ('<xs:element name="g"><xs:complexType><xs:sequence><xs:element name="c" type="xs:%s"/></xs:sequence></xs:complexType></xs:element>'
@@ -137,6 +169,26 @@ def schema_cases():
                       {'c': [(T, lit)], 'd': [(T, lit)], 'attrs': {'a': (T, lit)}, 'paths': [('/r/d/@b', 'attribute', (T, lit))],
                        'user': [('/r/c[1]', 'element', 'S2', True), ('/r/c[1]', 'element', 'S', True), ('/r/c[1]', 'element', 'O', False), ('/r/@a', 'attribute', 'S2', True), ('/r/@a', 'attribute', 'S', True),
                                 ('/r/@a', 'attribute', 'O', False), ('/r/d/@b', 'attribute', 'S', True)]})], g))
+    # --- declarations reached through a substitution group or a wildcard (apply_schema looks the global element up by name) ---
+    for head_t, sub_t, lit_h, lit_s in (('integer', 'byte', '300', '5'), ('decimal', 'int', '1.5', '7'), ('string', 'NCName', 'x y', 'b1'), ('anySimpleType', 'date', None, '2000-02-29')):
+        g = '<xs:element name="hd" type="xs:%s"/><xs:element name="sb" type="xs:%s" substitutionGroup="hd"/>' % (head_t, sub_t)
+        pths = [('/r/sb[1]', 'element', (sub_t, lit_s)), ('/r/sb[2]', 'element', (sub_t, lit_s))] + ([('/r/hd[1]', 'element', (head_t, lit_h))] if lit_h else [])
+        out.append(('substitution:%s:%s' % (head_t, sub_t), 'substitution', None, '<xs:element ref="hd" maxOccurs="unbounded"/>', '',
+                    [('<sb>%s</sb>%s<sb>%s</sb>' % (lit_s, '<hd>%s</hd>' % lit_h if lit_h else '', lit_s), '', {'paths': pths})], g))
+    for pc in ('lax', 'strict'):
+        g = '<xs:element name="w" type="xs:date"/><xs:element name="v" type="xs:int"/><xs:attribute name="ga" type="xs:decimal"/>'
+        out.append(('wildcard:' + pc, 'wildcard', None, '<xs:element name="c" type="xs:int"/><xs:any processContents="%s" maxOccurs="unbounded"/>' % pc, '<xs:anyAttribute processContents="%s"/>' % pc,
+                    [('<c>1</c><w>2000-02-29</w><v>12</v><w>1999-12-31</w>', ' ga="1.50"',
+                      {'c': [('int', '1')], 'paths': [('/r/w[1]', 'element', ('date', '2000-02-29')), ('/r/v', 'element', ('int', '12')), ('/r/w[2]', 'element', ('date', '1999-12-31')),
+                                                      ('/r/@ga', 'attribute', ('decimal', '1.50'))]})], g))
+    # --- deeper nesting with a repeated complex child ---
+    out.append(('nested', 'nested', None, '<xs:element name="g" maxOccurs="unbounded"><xs:complexType><xs:sequence><xs:element name="c" type="xs:int" maxOccurs="unbounded"/><xs:element name="k" minOccurs="0">'
+                '<xs:complexType><xs:sequence><xs:element name="c" type="xs:date"/></xs:sequence><xs:attribute name="b" type="xs:boolean"/></xs:complexType></xs:element></xs:sequence>'
+                '<xs:attribute name="b" type="xs:short"/></xs:complexType></xs:element>', '',
+                [('<g b="1"><c>1</c><c>2</c><k b="true"><c>2000-02-29</c></k></g><g><c>3</c></g><g b="-2"><c>4</c><k><c>1999-12-31</c></k></g>', '',
+                  {'paths': [('/r/g[1]/c[1]', 'element', ('int', '1')), ('/r/g[1]/c[2]', 'element', ('int', '2')), ('/r/g[1]/k/c', 'element', ('date', '2000-02-29')), ('/r/g[2]/c', 'element', ('int', '3')),
+                             ('/r/g[3]/c', 'element', ('int', '4')), ('/r/g[3]/k/c', 'element', ('date', '1999-12-31')), ('/r/g[1]/@b', 'attribute', ('short', '1')), ('/r/g[1]/k/@b', 'attribute', ('boolean', 'true')),
+                             ('/r/g[3]/@b', 'attribute', ('short', '-2'))]})]))
     out.append(('two-children', 'atomic', 'int', '<xs:element name="c" type="xs:int" maxOccurs="unbounded"/><xs:element name="d" type="xs:date" minOccurs="0"/>', '<xs:attribute name="a" type="xs:boolean"/>',
                 [('<c>1</c><c>2</c><d>2000-01-01</d>', ' a="true"', {'c': [('int', '1'), ('int', '2')], 'd': [('date', '2000-01-01')], 'attrs': {'a': ('boolean', 'true')}})]))
     return [c if len(c) == 7 else c + ('',) for c in out]
@@ -148,12 +200,12 @@ def xsd_text(children, attrs, globals_=''):
 
 
 def plan(tier, seed):
-    cases = schema_cases()
-    units = [{'kind': 'case', 'index': i, 'ver': v, 'lib': lib} for i in range(len(cases)) for v in ('1.0', '1.1') for lib in ('etree', 'lxml')]
-    units += [{'kind': 'reuse', 'ver': v, 'lib': lib, 'via': via} for v in ('1.0', '1.1') for lib in ('etree', 'lxml') for via in ('root', 'item')]
+    cases = schema_cases(tier)
+    units = [{'kind': 'case', 'index': i, 'ver': v, 'lib': lib, 'tier': tier} for i in range(len(cases)) for v in ('1.0', '1.1') for lib in ('etree', 'lxml')]
+    units += [{'kind': 'reuse', 'ver': v, 'lib': lib, 'via': via, 'depth': REUSE_DEPTH[tier]} for v in ('1.0', '1.1') for lib in ('etree', 'lxml') for via in ('root', 'item')]
     return {
         'units': units,
-        'bounds': {'reuse_history_depth': REUSE_DEPTH, 'reuse_alphabet': ['schema A', 'schema B', 'no schema'], 'schemas': len(cases), 'xsd_versions': ['1.0', '1.1'], 'libraries': ['etree', 'lxml'], 'paths': len(PATHS), 'atomic_types': len(LEX)},
+        'bounds': {'reuse_history_depth': REUSE_DEPTH[tier], 'same_name_types': len(SAME_NAME_TYPES) + (len(SAME_NAME_MORE) if tier == 'thorough' else 0), 'reuse_alphabet': ['schema A', 'schema B', 'no schema'], 'schemas': len(cases), 'xsd_versions': ['1.0', '1.1'], 'libraries': ['etree', 'lxml'], 'paths': len(PATHS), 'atomic_types': len(LEX)},
         'rule': 'every generated schema x every listed instance x both XSD versions x both tree libraries: typed value, instance-of tests along the type hierarchy, '
                 'arithmetic / comparison on typed nodes, and every path of the structural path set with and without the schema; non-trivial = always',
         'assumptions': ['instances are validated once by xmlschema itself (a generated instance that is not valid is a harness error)',
@@ -214,7 +266,7 @@ def run_case(unit, tier, acc):
     from elementpath import datatypes as DT
     ver, lib = unit['ver'], unit['lib']
     S = setup(ver)
-    cid, kind, T, children, attrs, instances, globals_ = schema_cases()[unit['index']]
+    cid, kind, T, children, attrs, instances, globals_ = schema_cases(unit.get('tier', 'quick'))[unit['index']]
     if lib == 'lxml':
         import lxml.etree as ET
     else:
@@ -240,7 +292,7 @@ def run_case(unit, tier, acc):
             raise RuntimeError('harness: instance %s/%d is not valid: %s' % (cid, inst_no, text))
         mk_s = lambda: XPathContext(root=doc, schema=proxy, namespaces=ns)      # noqa
         mk_p = lambda: XPathContext(root=doc, namespaces=ns)                     # noqa
-        case = {'kind': 'case', 'index': unit['index'], 'ver': ver, 'lib': lib}
+        case = {'kind': 'case', 'index': unit['index'], 'ver': ver, 'lib': lib, 'tier': unit.get('tier', 'quick')}
         acc.case(True)
         tag = '%s|xsd%s' % (cid.split(':')[0], ver)
 
@@ -470,7 +522,7 @@ def run_case(unit, tier, acc):
     acc.sample({'schema_case': cid, 'xsd_version': ver, 'library': lib, 'instance': '<r%s>%s</r>' % (instances[0][1], instances[0][0])}, limit=1)
 
 
-REUSE_DEPTH = 3
+REUSE_DEPTH = {'quick': 3, 'thorough': 6}
 REUSE_SCHEMAS = {'A': ('int', 'decimal', 'date'), 'B': ('NMTOKEN', 'string', 'gYear')}     # types of /r/c, /r/@a and /r/d in the two schemas
 
 
@@ -499,12 +551,12 @@ def run_reuse(unit, tier, acc):
     B_lit_ok = all(A.parse(types['B'][k], lit[k], ver) is not None for k in lit)
     paths = {'c1': '/r/c[1]', 'c2': '/r/c[2]', 'a': '/r/@a', 'd': '/r/d'}
     alphabet = ['A', 'B', 'N']
-    for depth in range(1, REUSE_DEPTH + 1):
+    for depth in range(1, unit.get('depth', 3) + 1):
         for hist in itertools.product(alphabet, repeat=depth):
             if 'B' in hist and not B_lit_ok:
                 continue
             tree = get_node_tree(ET.fromstring(text))
-            case = {'kind': 'reuse', 'ver': ver, 'lib': lib, 'via': via, 'history': list(hist)}
+            case = {'kind': 'reuse', 'ver': ver, 'lib': lib, 'via': via, 'depth': unit.get('depth', 3), 'history': list(hist)}
             acc.case(True)
             for step, b in enumerate(hist):
                 try:
